@@ -14,12 +14,12 @@ CHUNK = 1
 ENGINE = 'product-enumerator'
 TECHNIQUE = 'exhaustive instruction-form tables x boundary operands from independent reference encoders, executed on the real assembler'
 LEVEL_TEXT = ('The complete documented form tables of the NMOS 6502 (151 opcodes), 8080/8085, 4004, PIC16C84, Z80 (main, CB, ED, DD/FD displacement '
-              'forms), the AVR classic core (I/O operands as numbers and as PORT-typed symbols) and the MSP430 jumps are expanded with operands 0, 1, limit-1, limit and just-out-of-range values, relative branches at '
+              'forms), the AVR classic core (I/O operands as numbers and as PORT-typed symbols) and the MSP430 (all formats, addressing modes, constant generators, emulated mnemonics, jumps) are expanded with operands 0, 1, limit-1, limit and just-out-of-range values, relative branches at '
               'every distance around both limits, page-relative 4004 jumps at the start, middle and last bytes of a ROM page, and illegal '
               'mode/register combinations adjacent to legal ones; every form is assembled and compared byte for byte, every out-of-range form '
               'must be rejected with an error naming its line.')
 LEVEL_NOTE = ('Trusted: the tables in mc/isa.py (typed from the ISA references, cross-validated by agreement with the unchanged tree; every '
-              'disagreement was triaged). Not covered: undocumented opcodes, Z180/Z380/eZ80, MSP430 other than its jumps, AVR mega extensions.')
+              'disagreement was triaged). Not covered: undocumented opcodes, Z180/Z380/eZ80, MSP430X extensions, AVR mega extensions.')
 RULE = 'one micro-case per instruction form; non-trivial = all'
 BOUNDS = {'quick': 'all tables', 'thorough': 'all tables (identical; the space is complete)'}
 ASSUMPTIONS = ['PIC/AVR code words are stored little-endian in the code file']
